@@ -2,6 +2,8 @@
 # tools/run_all.sh [tier] — run every registered check once; print one line per check.
 cd "$(dirname "$0")/.."
 TIER=${1:-quick}
+# under `vp run --with-repo` use the repository snapshot, so that edits to /repo during the run do not disturb it
+[ -n "${VP_RUN_REPO:-}" ] && export VERIF_REPO=$VP_RUN_REPO
 for id in C01 C02 C03 C04 C05 C06 C07 C08 C09 C10 C11 C12 C13 C14 C15 C16 C17; do
   t0=$(date +%s)
   out=$(./check $id --tier $TIER 2>&1); rc=$?
